@@ -146,22 +146,54 @@ def run(run, binfo):
         for rhs in ('admin', 'x', 'never'):
             for creds in ({kind: rhs}, {kind: 'other', 'roles': [rhs]}, {'roles': [rhs]}, {kind: [rhs, 'zz']}, {}):
                 gens.append((kind, [('lit', rhs)], {}, creds))
+    # the enforcer copies a TRUTHY `system_scope` into `system` before the checks run; a falsy one leaves the credentials
+    # as they are, so `system` is then reached (or missing) like any other attribute
+    for falsy in (None, '', False, 0, [], {}):
+        for extra in ({}, {'system': 'all'}, {'system': 'x'}, {'system': None}):
+            creds = dict({'system_scope': falsy}, **extra)
+            for rhs in ('all', 'None', '', 'False', '0', '[]', 'x', '{}'):
+                gens.append(('system', [('lit', rhs)], {}, creds))
+            gens.append(('system', [('hole', 't')], {'t': str(falsy)}, creds))
+            gens.append(('system_scope', [('lit', str(falsy))], {}, creds))
+    # the same credentials in the other representations a service may hand over: the request context object, and the
+    # mapping its to_policy_values() returns (the case holds the constructor arguments; the documented value is
+    # computed on the plain-dict equivalent)
+    from world import convert_creds
+    for kw in ({'roles': ['Admin', 'reader']}, {'roles': ['admin'], 'service_roles': ['Service', 'x']},
+               {'roles': [], 'user_id': 'U1', 'project_id': 'P1'}, {'roles': ['MiXed'], 'is_admin_project': False},
+               {'roles': ['a'], 'system_scope': 'all'}, {'roles': ['B'], 'domain_id': 'D', 'user_domain_id': 'Ud'}):
+        pv = dict(convert_creds('policy_values', kw))
+        for rep in ('context', 'policy_values'):
+            for kind in ('roles', 'service_roles', 'user_id', 'project_id', 'is_admin_project', 'system_scope',
+                         'domain_id', 'user_domain_id', 'service_user_id', 'nonexistent'):
+                vals = pv.get(kind)
+                seen = [str(v) for v in vals] if isinstance(vals, list) else [str(vals)]
+                for rhs in sorted(set(seen + [x.lower() for x in seen] + [x.upper() for x in seen] + ['None'])):
+                    gens.append((kind, [('lit', rhs)], {}, kw, rep))
+                    gens.append((kind, [('hole', 't')], {'t': rhs}, kw, rep))
     ss = list(small_scope())
     if tier == 'quick':
         ss = ss[::5]
     gens += ss
     reqs = []
-    for kind, parts, tgt, creds in gens:
+    for g in gens:
+        kind, parts, tgt, creds = g[:4]
+        if len(g) > 4:
+            creds = dict(convert_creds('policy_values', creds))
         reqs.append([8, 1, lit_outcome(kind), [S(k) for k in kind.split('.')], enc_parts(parts),
                      enc_jv(tgt), enc_jv(creds)])
     spec = run_batch(reqs)
     cases, wants = [], []
-    for (kind, parts, tgt, creds), sp in zip(gens, spec):
+    for g, sp in zip(gens, spec):
+        kind, parts, tgt, creds = g[:4]
         text, wf, want = unS(sp[0]), bool(sp[1]), bool(sp[2])
         if not wf:
             run.count('ill_formed_template_skipped')
             continue
         cases.append(base_case(rules={'r': [[kind + ':' + text]]}, target=tgt, creds=creds, debug=(len(cases) % 3 == 0)))
+        if len(g) > 4:
+            cases[-1]['creds_as'] = g[4]
+            run.count('representation_cases')
         wants.append(want)
     run.count('cases', len(cases))
     run.count('small_scope_cases', len(ss))
